@@ -1086,6 +1086,56 @@ func (g *Gen) makeDiff(l, r *Q) (*Q, *Q) {
 	return l, r
 }
 
+// diffSetOp: a union (mostly) / intersect / minus, as the whole query, of two simple sources of
+// which one lacks a column the other has (with real, mostly non-empty values): Select and
+// Lookup values for that column conflict with the source that lacks it
+func (g *Gen) diffSetOp() *Q {
+	simple := func() *Q {
+		q := g.anyTable()
+		if g.rnd.Intn(3) == 0 {
+			q = g.where(q)
+		}
+		return q
+	}
+	l := simple()
+	r := g.makeSame(l, simple())
+	if len(l.cols) < 2 {
+		return g.binary("union", l, r)
+	}
+	c := l.cols[g.rnd.Intn(len(l.cols))]
+	// an index on a shared column in both tables, so the union can be read in order (merge)
+	// without a temp index
+	if g.wantOf == nil {
+		g.wantOf = map[string][]string{}
+	}
+	for _, side := range []*Q{l, r} {
+		t := side
+		for t.Op == "where" {
+			t = t.Src
+		}
+		if t.Op == "table" && g.wantOf[t.Name] == nil {
+			var shared []string
+			for _, x := range t.cols {
+				if x != c && contains(l.cols, x) && contains(r.cols, x) {
+					shared = append(shared, x)
+				}
+			}
+			if len(shared) >= 2 {
+				sh := shuffled(g.rnd, shared)
+				g.wantOf[t.Name] = sh[:2]
+				t.want = map[string][]string{t.Name: sh[:2]}
+			}
+		}
+	}
+	if g.rnd.Intn(2) == 0 {
+		l = g.remove(l, []string{c})
+	} else {
+		r = g.remove(r, []string{c})
+	}
+	op := []string{"union", "union", "union", "intersect", "minus"}[g.rnd.Intn(5)]
+	return g.binary(op, l, r)
+}
+
 // makeSame returns r adapted to have exactly the columns of l
 func (g *Gen) makeSame(l, r *Q) *Q {
 	var missing, surplus []string
